@@ -32,7 +32,7 @@ def main(argv):
             # every path of the original must still be there in the held graph (record.py, fork_between)
             import os
 
-            fin = rb.domain_inputs(args.tier, args.seed + 3, "XR", scale=0.25 if args.tier == "quick" else 0.5)
+            fin = rb.domain_inputs("quick", args.seed + 3, "XR", scale=0.25 if args.tier == "quick" else 1.0)
             res3 = rb.record_domain(fin, os.path.join(d, "fork"), jobs=args.jobs, shards=args.jobs, stages=True, reload="fork", heavy=70)
             out3 = explore(res3, args.jobs)
             for v in out3["viol"]:
